@@ -151,7 +151,10 @@ func Glue(s *abs.Schema, importPath string, o GlueOpts) string {
 		p("\tContentType    string")
 		p("\tDefaultHeaders [][2]string")
 		p("\tHelpers        [][2]string // typed service-header helper name, value")
+		p("\tShared         string      // non-empty: reuse one client per (service, Shared)")
 		p("}")
+		p("var glueSharedMu sync.Mutex")
+		p("var glueShared = map[string]any{}")
 		p("type GlueCallOpts struct {")
 		p("\tContentType string")
 		p("\tHeaders     [][2]string")
@@ -188,7 +191,12 @@ func Glue(s *abs.Schema, importPath string, o GlueOpts) string {
 				}
 				p("\t\t\t}\n\t\t}")
 			}
-			p("\t\tc := New%sClient(baseURL, opts...)", sn)
+			p("\t\tvar c %sClient", sn)
+			p("\t\tif co.Shared != \"\" {")
+			p("\t\t\tglueSharedMu.Lock()")
+			p("\t\t\tif v, ok := glueShared[svc+\"|\"+co.Shared]; ok {\n\t\t\t\tc = v.(%sClient)\n\t\t\t} else {\n\t\t\t\tc = New%sClient(baseURL, opts...)\n\t\t\t\tglueShared[svc+\"|\"+co.Shared] = c\n\t\t\t}", sn, sn)
+			p("\t\t\tglueSharedMu.Unlock()")
+			p("\t\t} else {\n\t\t\tc = New%sClient(baseURL, opts...)\n\t\t}", sn)
 			p("\t\tvar copts []%sCallOption", sn)
 			p("\t\tif call.ContentType != \"\" {\n\t\t\tcopts = append(copts, With%sCallContentType(call.ContentType))\n\t\t}", sn)
 			p("\t\tfor _, h := range call.Headers {\n\t\t\tcopts = append(copts, With%sHeader(h[0], h[1]))\n\t\t}", sn)
@@ -227,7 +235,7 @@ func Glue(s *abs.Schema, importPath string, o GlueOpts) string {
 	}
 
 	var hdr strings.Builder
-	fmt.Fprintf(&hdr, "// Harness glue (not emitted by sebuf).\n\npackage %s\n\nimport (\n\t\"context\"\n\t\"fmt\"\n\t\"net/http\"\n\n\t\"google.golang.org/protobuf/proto\"\n", pkgName)
+	fmt.Fprintf(&hdr, "// Harness glue (not emitted by sebuf).\n\npackage %s\n\nimport (\n\t\"context\"\n\t\"fmt\"\n\t\"net/http\"\n\t\"sync\"\n\n\t\"google.golang.org/protobuf/proto\"\n", pkgName)
 	ips := make([]string, 0, len(imports))
 	for ip := range imports {
 		ips = append(ips, ip)
@@ -236,7 +244,7 @@ func Glue(s *abs.Schema, importPath string, o GlueOpts) string {
 	for _, ip := range ips {
 		fmt.Fprintf(&hdr, "\t%s %q\n", imports[ip], ip)
 	}
-	hdr.WriteString(")\n\nvar _ = fmt.Sprint\nvar _ context.Context\nvar _ http.Handler\nvar _ proto.Message\n\n")
+	hdr.WriteString(")\n\nvar _ = fmt.Sprint\nvar _ sync.Mutex\nvar _ context.Context\nvar _ http.Handler\nvar _ proto.Message\n\n")
 	return hdr.String() + body.String()
 }
 
